@@ -2053,7 +2053,13 @@ func (app *App) findBestStreamFrom(node *mysql.Node, clusterState map[string]*no
 			return master
 		}
 
-		candidateState := clusterState[streamFrom]
+		candidateState, ok := clusterState[streamFrom]
+		if !ok {
+			// configured source is not a registered cluster node - look further along the chain
+			app.logger.Error().Msgf("repair: stream_from host %s of %s is not registered in cluster", streamFrom, host)
+			loopDetector = append(loopDetector, streamFrom)
+			continue
+		}
 
 		// if cascade node is streaming now from configured host - do nothing
 		if len(loopDetector) == 1 {
